@@ -41,8 +41,8 @@ def run_models(chk, inst):
     out: dict = {}
 
     def go(fam):
-        out[fam] = tlc.run('MCHelpers', helpers.cfg(inst, fam), extra_modules={'MCHelpers': mod}, workers=4, timeout=1500,
-                           heap='2g')
+        out[fam] = tlc.run('MCHelpers', helpers.cfg(inst, fam), extra_modules={'MCHelpers': mod},
+                           workers={'piecewise': 8, 'segmentation': 4}.get(fam, 2), timeout=1500, heap='2g')
 
     ths = [threading.Thread(target=go, args=(fam,)) for fam in helpers.FAMILIES]
     for t in ths:
@@ -54,8 +54,8 @@ def run_models(chk, inst):
         res = out[fam]
         chk.add_tlc(f'Helpers {fam}: {", ".join(helpers.FAMILIES[fam]["invariants"])}', res)
         recs = [r for r in res.emitted if r.get('fam') == fam]
-        if not recs:
-            raise tlc.MachineryError(f'no case emitted for family {fam}: {res.raw[-1500:]}')
+        if not recs or res.states < len(recs):
+            raise tlc.MachineryError(f'family {fam}: {len(recs)} cases emitted, {res.states} states: {res.raw[-1500:]}')
         emitted[fam] = recs
     return emitted
 
@@ -75,19 +75,22 @@ def report(chk, fam, items, results):
 
 def body(chk: check.Check):
     rt.setup(chk.seed)
-    inst = helpers.instance(chk.tier)
+    helpers.preload()
+    inst = helpers.instance(chk.tier, chk.seed)
     emitted = run_models(chk, inst)
     chk.rule = ('cases emitted by TLC from Helpers.tla; a case = one helper configuration x one argument; distinct = distinct '
                 '(family, configuration, argument); each case is evaluated through every way of passing its parameters '
                 '(free/fixed Beta, Numeric, number)')
 
     extra = {}
+    samples = {}
     oracle_gap = 0.0
     quads = {}
     for fam, (grouper, fn, chunk) in REPLAY.items():
         recs = emitted[fam]
         items = grouper(recs)
-        results = par.pmap(fn, items, chunk=chunk)
+        # few, large batches: every batch is a fork of this (by now large) process
+        results = par.pmap(fn, items, chunk=max(chunk, len(items) // 64))
         report(chk, fam, items, results)
         extra[fam] = dict(cases=len(recs), replay_items=len(items))
         for r in recs:
@@ -95,6 +98,8 @@ def body(chk: check.Check):
                                                ('thr', 'betas', 'x', 'l', 'l2', 'pair', 'dist', 'p', 'y', 'm', 's', 'segs', 'row',
                                                 'ref', 'prefix', 'order', 'nests', 'top', 'names')))))
         for item, (st, val) in zip(items, results):
+            if st == 'ok' and val.get('sample') and fam not in samples and (fam != 'boxcox' or not item[0]['pair']):
+                samples[fam] = val['sample']
             if st == 'ok' and fam == 'boxcox':
                 oracle_gap = max(oracle_gap, val['oracle_gap'])
             if st == 'ok' and fam == 'density' and val.get('quad') is not None:
@@ -107,10 +112,9 @@ def body(chk: check.Check):
     if oracle_gap > 1e-7:
         raise tlc.MachineryError(f'the two forms of the Box-Cox reference disagree by {oracle_gap}')
 
-    # a few concrete replayed cases for the evidence
-    for fam in ('piecewise', 'boxcox', 'nests'):
-        r = emitted[fam][len(emitted[fam]) // 2]
-        chk.sample({k: v for k, v in r.items() if k not in ('def',)})
+    for fam in helpers.FAMILIES:   # one concrete replayed case per family (expected by the spec / observed on the code)
+        if fam in samples:
+            chk.sample(samples[fam], limit=6)
 
     # ------------------------------------------------------------------ negative controls
     # (1) model level: the plain function that forgets the origin violates FormulaIsFunction
